@@ -50,6 +50,15 @@ Print Assumptions C05_parse_total.
 Print Assumptions C05_no_stuck_state_partial.
 Print Assumptions C05_slot_bounds_partial.
 
+(* ... and can always be completed: from every reachable state of the hand-off
+   (after a failure of stage 1, of stage 2, or of both) some continuation
+   reaches the state where both stages have returned *)
+Theorem C05_pipeline_can_finish_partial : forall n evs s,
+  run S_gen CAP_gen (init n) evs = Some s ->
+  exists evs' s', run S_gen CAP_gen (init n) (evs ++ evs') = Some s' /\ final s' = true /\
+                  (count_fail2 evs' = 0)%nat /\ (length evs' <= mu s)%nat.
+Proof. intros n evs s. exact (ring_can_finish S_gen CAP_gen n evs s tie_cap_positive). Qed.
+
 (* the second sentence — on any returned result every traversal, lookup and
    marshalling call terminates without panic — holds for ARBITRARY tapes, hence
    for every result: plain traversal, MarshalJSON, FindElement from the root;
